@@ -364,7 +364,14 @@ def layer_b_case(arg):
     # ---- error invocations leave no output and exit non-zero
     with open(os.path.join(d, 'broken.tdda'), 'w') as f:
         f.write('{"fields": {"a": ')
+    if rng.random() < 0.5:
+        # (a constraints file with the data file's own stem sits next to it - e.g. from an earlier discover: naming a
+        # missing file must still be an error, not a silent switch to that one)
+        shutil.copy(tdda, os.path.splitext(data2)[0] + '.tdda')
+        shutil.copy(tdda, os.path.splitext(data)[0] + '.tdda')
     bad = rng.choice([['detect', data2, os.path.join(d, 'missing.tdda'), os.path.join(d, 'x.csv')],
+                      ['verify', data2, os.path.join(d, 'missing.tdda')],
+                      ['verify', data, os.path.join(d, 'no-such.tdda')],
                       ['detect', data2, os.path.join(d, 'missing.tdda'), os.path.join(d, 'x.parquet')],
                       ['detect', data2, os.path.join(d, 'broken.tdda'), os.path.join(d, 'x.csv')],
                       ['detect', os.path.join(d, 'missing.csv'), tdda, os.path.join(d, 'x.csv')],
